@@ -159,3 +159,50 @@ impl RoundTrip for String {
     }
 }
 //@endrequires
+
+// =========================================================================
+// &[T] (impls/slice.rs), C16: a slice reference is written as the vector of the
+// same items. The fake vector over the slice's memory (`unsafe Vec::from_raw_parts`,
+// never dropped) is replaced by an assumed function returning a vector with the
+// same elements (recorded replacement); Kani's wfail_slice_* / same_as_vec_* lemmas
+// check the real expression (no double free, same bytes).
+// =========================================================================
+
+#[verifier::external_body]
+pub fn assumed_fake_vec<T>(s: &[T]) -> (r: Vec<T>)
+    ensures r@ == s@,
+{ unimplemented!() }
+
+//@item epserde/src/impls/slice.rs props=C16,C13 name=SliceRef::SerializeInner optional <<impl<T: CopyType + SerializeInner + TypeHash + AlignHash> SerializeInner for &[T]>>
+//@  replace <<Result<()>>> <<SResult<()>>>
+//@  replace <<ser::SerializeInner::_serialize_inner>> <<SerializeInner::_serialize_inner>>
+//@  replace <<unsafe { Vec::from_raw_parts(self.as_ptr() as *mut T, self.len(), self.len()) }>> <<assumed_fake_vec(*self)>>
+//@  body_prefix
+//@|    /// exactly the encoding of the vector holding the same items
+//@|    open spec fn enc(&self, pos: nat) -> Seq<u8> { vec_of(self@).enc(pos) }
+//@  sub <<fn _serialize_inner(&self, backend: &mut impl WriteWithNames) -> Result<()> {>>
+//@  impl_arg
+//@  ret r
+//@  body_prefix
+//@|        proof { axiom_vec_of::<T>(); assert(self@.len() == self.len() as nat); }
+//@end
+
+// ---- char (impls/prim.rs): written as its scalar value --------------------------------------
+//@item epserde/src/impls/prim.rs props=C01,C13 name=char::SerializeInner optional <<impl SerializeInner for char {>>
+//@  replace <<ser::Result>> <<SResult>>
+//@  body_prefix
+//@|    open spec fn enc(&self, pos: nat) -> Seq<u8> { u32_bytes(*self as u32) }
+//@  sub <<fn _serialize_inner(&self, backend: &mut impl WriteWithNames) -> ser::Result<()> {>>
+//@  impl_arg
+//@  ret r
+//@end
+
+//@requires char::SerializeInner
+impl RoundTrip for char {
+    proof fn lemma_rt(&self, pos: nat, rest: Seq<u8>) {
+        axiom_ne_bytes();
+        axiom_char_of();
+        assert((u32_bytes(*self as u32) + rest).take(4) =~= u32_bytes(*self as u32));
+    }
+}
+//@endrequires
